@@ -8,10 +8,11 @@ META = dict(
               "every client cache; TLC case table + seeded larger DAGs replayed through the real client functions, "
               "the real recipe serialisation and the real recreate_search_from_recipe on real repositories; recorded "
               "walks judged by the same TLA+ laws",
-    level_text="TLC exhausts all DAGs of <= 4 revisions (+1 ghost; thorough: +2 ghosts, and 5 revisions +1 ghost for "
-               "the full variant) with <= 2 parents, every cache K (any subset of the present revisions, with or "
-               "without null:), every missing set over ghosts and null:, and for the limited variant every tip and "
-               "depth <= 2, checking on the transcription that the server's walk of the recipe is exactly the "
+    level_text="TLC exhausts all DAGs of <= 4 revisions + 1 ghost with <= 2 parents (thorough: also + 2 ghosts, "
+               "5 revisions + 1 ghost, and 3 revisions + 2 ghosts with <= 3 parents), every cache K (any subset of the "
+               "present revisions, with or without null:), every missing set over ghosts and null:, and for the "
+               "limited variant (<= 3 revisions quick, <= 4 thorough) every tip and depth <= 2 (3), checking on the "
+               "transcription that the server's walk of the recipe is exactly the "
                "intended key set and that the count check passes. The exhaustive table for <= 3 revisions and "
                "seeded random DAGs up to 6 (7) revisions, 2 ghosts, 3 parents are executed on the real code and TLC "
                "evaluates the same laws on the recorded walks. Set-valued functions of a small graph: small-scope "
@@ -23,6 +24,7 @@ META = dict(
 )
 
 NULL = b"null:"
+BATCH = 80          # graphs per real repository
 
 
 # ----------------------------------------------------------------------------- ids
@@ -126,18 +128,22 @@ def _work(ctx, items):
             if key not in index:
                 index[key] = len(dags)
                 dags.append(c["par"])
-        ms, repo = _build_repo(dags)
-        try:
-            rows = []
-            for c in cases:
-                d = index[tuple(tuple(ps) for ps in c["par"])]
-                rows.append({"c": c, "impl": _observe(repo, req, d, c)})
-                ctx.count(1)
-                if len(c["K"]) >= 2:
-                    ctx.nontrivial((c["kind"], tuple(tuple(ps) for ps in c["par"]), tuple(c["K"]),
-                                    tuple(c["missing"]), tuple(c["tips"]), c["depth"]))
-        finally:
-            ms.stop_server()
+        rows = []
+        # one real repository per BATCH graphs (building one pack with thousands of revisions is super-linear)
+        for lo in range(0, len(dags), BATCH):
+            ms, repo = _build_repo(dags[lo:lo + BATCH])
+            try:
+                for c in cases:
+                    d = index[tuple(tuple(ps) for ps in c["par"])]
+                    if not lo <= d < lo + BATCH:
+                        continue
+                    rows.append({"c": c, "impl": _observe(repo, req, d - lo, c)})
+                    ctx.count(1)
+                    if len(c["K"]) >= 2:
+                        ctx.nontrivial((c["kind"], tuple(tuple(ps) for ps in c["par"]), tuple(c["K"]),
+                                        tuple(c["missing"]), tuple(c["tips"]), c["depth"]))
+            finally:
+                ms.stop_server()
         for row, failed, drift in table.judge(ctx, "SearchRecipeTrace", rows, workers=2):
             c = row["c"]
             for law in failed:
@@ -191,12 +197,12 @@ def run(ctx):
     small = _mc(3, 1, 2, 1, 1)
     items = [{"witness": "WitnessPartialCache", "consts": small}]
     if ctx.quick:
-        items.append({"mc": _mc(4, 1, 2, 1, 2), "workers": 6})
-        tab = _mc(3, 1, 2, 1, 2)
-        nrand, maxn, nchunks = 2000, 6, 6
+        items.append({"mc": _mc(4, 1, 2, 0, 0), "workers": 4})      # limited variant: table (<= 3) + random cases
+        tab = _mc(3, 1, 2, 1, 1)
+        nrand, maxn, nchunks = 2000, 6, 4
     else:
-        items += [{"mc": _mc(4, 2, 2, 1, 2), "workers": 8}, {"mc": _mc(5, 1, 2, 0, 0), "workers": 6},
-                  {"mc": _mc(3, 2, 3, 2, 3), "workers": 2}]
+        items += [{"mc": _mc(4, 1, 2, 1, 2), "workers": 4}, {"mc": _mc(4, 2, 2, 0, 0), "workers": 4},
+                  {"mc": _mc(5, 1, 2, 0, 0), "workers": 4}, {"mc": _mc(3, 2, 3, 1, 3), "workers": 4}]
         tab = _mc(3, 2, 2, 1, 2)
         nrand, maxn, nchunks = 20000, 7, 24
     cases = [k["c"] for k in table.generate(ctx, "SearchRecipeGen", tab, witnesses=(), workers=4,
@@ -216,3 +222,21 @@ def run(ctx):
              "depth <= 4. Non-trivial = cache with >= 2 keys." % (tab, nrand, maxn))
     ctx.cov["exhaustive"] = True
     ctx.assume("cache values are the true parent tuples; missing contains only ghosts / null:")
+
+
+def replay(ctx, rep):
+    """./check C33 --replay <file>: rebuild the recorded graph in a real repository and replay the recipe again."""
+    env.init()
+    from breezy.bzr.smart.repository import SmartServerRepositoryRequest
+    c = rep["replay"]["c"]
+    ms, repo = _build_repo([c["par"]])
+    try:
+        impl = _observe(repo, SmartServerRepositoryRequest(None), 0, c)
+    finally:
+        ms.stop_server()
+    print("replayed %s\n  -> %s" % (c, impl))
+    ctx.count(1, traces=1)
+    intended = set(c["K"]) if c["kind"] == "full" else set(impl["keys"])
+    if set(impl["walk"]) - {0} != intended - {0} or not impl["ok"]:
+        ctx.violation(rep["signature"], "server walked %s, intended %s, count check %s" % (
+            impl["walk"], sorted(intended), "passed" if impl["ok"] else "FAILED"), rep["replay"])
